@@ -5,6 +5,7 @@
 from __future__ import annotations
 
 from abc import abstractmethod
+import copy
 import struct
 from typing import Optional
 
@@ -375,7 +376,9 @@ class PusTm(AbstractPusTm):
         user_data = bytearray(self._source_data)
         user_data.extend(self.crc16)  # type: ignore
         return SpacePacket(
-            self.space_packet_header, self.pus_tm_sec_header.pack(), user_data
+            copy.deepcopy(self.space_packet_header),
+            self.pus_tm_sec_header.pack(),
+            user_data,
         )
 
     def __str__(self):
